@@ -288,11 +288,36 @@ func (k *keyEvaluator) eval(v ssa.Value, env kenv, depth int, busy map[ssa.Value
 		if l, ok := constInt(x.Len); ok && l == 0 {
 			return lit("") // make([]byte, 0, n)
 		}
+		// dst := make([]byte, len(src)); copy(dst, src): a private copy of src
+		for _, r := range realReferrers(x) {
+			cp, ok := r.(*ssa.Call)
+			if !ok {
+				continue
+			}
+			b, isB := cp.Common().Value.(*ssa.Builtin)
+			if !isB || b.Name() != "copy" || cp.Common().Args[0] != ssa.Value(x) {
+				continue
+			}
+			src := cp.Common().Args[1]
+			if lc, ok := x.Len.(*ssa.Call); ok {
+				if lb, ok := lc.Common().Value.(*ssa.Builtin); ok && lb.Name() == "len" && (lc.Common().Args[0] == src || sameOrigin(lc.Common().Args[0], src)) {
+					return k.eval(src, env, depth, busy)
+				}
+			}
+		}
 		return k.opaque("make", v)
 	case *ssa.Slice:
 		if x.High != nil {
 			if h, ok := constInt(x.High); ok && h == 0 {
 				return lit("") // buf[:0]: an empty slice (sharing buf's storage, see ADP4)
+			}
+		}
+		// s[:len(s)] and s[:len(s):len(s)] (capacity clipped): the same bytes
+		if x.Low == nil && x.High != nil {
+			if lc, ok := x.High.(*ssa.Call); ok {
+				if lb, ok := lc.Common().Value.(*ssa.Builtin); ok && lb.Name() == "len" && (lc.Common().Args[0] == x.X || sameOrigin(lc.Common().Args[0], x.X)) {
+					return k.eval(x.X, env, depth, busy)
+				}
 			}
 		}
 		if x.Low == nil && x.High == nil {
@@ -532,6 +557,14 @@ func (k *keyEvaluator) evalCall(call *ssa.Call, idx int, env kenv, depth int, bu
 func (k *keyEvaluator) evalArg(a ssa.Value, env kenv, depth int, busy map[ssa.Value]bool) []Tmpl {
 	if isIntType(a.Type()) {
 		inner := stripConv(a)
+		for {
+			// integer width conversions do not change the decimal text
+			if cv, ok := inner.(*ssa.Convert); ok && isIntType(cv.X.Type()) {
+				inner = stripConv(cv.X)
+				continue
+			}
+			break
+		}
 		if ic, ok := inner.(*ssa.Call); ok && k.isTypeId(ic) {
 			return []Tmpl{{Part{K: pRank, V: ic.Common().Args[0]}}}
 		}
